@@ -36,7 +36,7 @@ import ast
 from ..core import (AnalysisError, const_str, find_calls, kwarg, last_attr,
                     names_in, txt, walk)
 from ..lib_C02 import (Arr, Ev, Feat, Mat, Mini, MiniError, ModelFault, NS,
-                       Opaque, numpy_model)
+                       Opaque, SelfModel, numpy_model)
 
 ASSUMPTIONS = [
     "NOT decided: value equality per dtype (h5py / numpy conversions), the "
@@ -315,23 +315,12 @@ class DS:
         return "mid"
 
 
-class SelfM:
-    """instance of Export whose methods are interpreted on demand"""
+class SelfM(SelfModel):
+    """instance of Export; methods, helpers and class constants are
+    interpreted on demand"""
 
     def __init__(self, mini, cls, ds):
-        self.__dict__["_mini"] = mini
-        self.__dict__["_cls"] = cls
-        self.__dict__["rtdc_ds"] = ds
-
-    def __getattr__(self, item):
-        for st in self._cls.body:
-            if isinstance(st, ast.FunctionDef) and st.name == item:
-                return lambda *a, **k: self._mini.call(st, (self,) + a, k)
-            if isinstance(st, ast.Assign) and any(
-                    isinstance(t, ast.Name) and t.id == item
-                    for t in st.targets):
-                return self._mini.expr(st.value, {}, set())
-        raise MiniError(f"Export has no attribute `{item}` in the model")
+        super().__init__(mini, cls, rtdc_ds=ds)
 
 
 def make_feature(name, kind, n, sliceable):
